@@ -23,6 +23,8 @@ IMin == V("int", 0, "min", <<>>)
 R(tok) == V("real", 0, tok, <<>>)
 S(x, n) == V("str", n, x, <<>>)
 T(es) == V("tab", 0, "", es)
+\* the same table value with another history: n further entries were inserted and removed again (its storage grew)
+TG(n, es) == V("tab", n, "", es)
 F(x) == V("fn", 0, x, <<>>)
 
 Big == 1073741824
@@ -107,6 +109,9 @@ U == << Nil,
         T(<< <<I(0), T1>> >>), T(<< <<I(0), T(<<>>)>> >>), T(<< <<T1, Nil>> >>),
         T(<< <<I(0), R("0.5")>>, <<I(1), S("ab", 2)>>, <<I(2), Nil>> >>),
         T(<< <<I(0), F("f")>> >>),
+        TG(12, << <<S("a", 1), I(1)>>, <<S("b", 1), I(2)>> >>),
+        TG(12, << <<I(0), R("0.5")>>, <<I(1), S("ab", 2)>>, <<I(2), Nil>> >>),
+        TG(20, << <<T1, Nil>> >>),
         F("f"), F("g") >>
 NU == Len(U)
 
